@@ -179,7 +179,7 @@ func randMachine(r *common.Rng, names []string) (*procbuilder.Machine, []string)
 	m.O = uint8(1 + r.Intn(6))
 	m.WordSize = []uint8{0, 0, 0, 32, 64, 16}[r.Intn(6)]
 	m.Threaded = []int{0, 0, 0, 1, 2, 4}[r.Intn(6)]
-	switch r.Intn(12) {
+	switch r.Intn(30) {
 	case 0: // nil Modes
 	case 1:
 		m.Modes = []string{}
